@@ -36,10 +36,13 @@ def newGrid (rows cols sb : Nat) : Grid :=
     originMode := false, savedOriginMode := false, scrollback := [], scrollbackLen := sb,
     scrollbackOffset := 0 }
 
-theorem gridInv_new (rows cols sb : Nat) (hr : 1 ≤ rows) (hc : 1 ≤ cols) (un : Bool) :
+theorem gridInv_new (rows cols sb : Nat) (hr : 1 ≤ rows) (hc : 1 ≤ cols) (hr' : rows ≤ 65535)
+    (hc' : cols ≤ 65535) (un : Bool) :
     GridInv W (newGrid rows cols sb) un where
   rows_pos := hr
   cols_pos := hc
+  rows_u16 := hr'
+  cols_u16 := hc'
   rows_len := Or.inr (by simp [newGrid])
   row_ok := by
     intro r hr'
@@ -71,12 +74,12 @@ theorem new_eq (rows cols sb : Nat) (hr : 1 ≤ rows) :
   simp [Screen.new, Grid.new, subM, hr, newScreen, newGrid, Grid.allocateRows]
 
 /-- `Screen::new` succeeds for every size ≥ 1x1 and yields a screen satisfying the invariant -/
-theorem inv_new (rows cols sb : Nat) (hr : 1 ≤ rows) (hc : 1 ≤ cols) :
+theorem inv_new (rows cols sb : Nat) (hr : 1 ≤ rows) (hc : 1 ≤ cols) (hr' : rows ≤ 65535) (hc' : cols ≤ 65535) :
     Screen.new ⟨rows, cols⟩ sb = .ok (newScreen rows cols sb) ∧ Inv W (newScreen rows cols sb) := by
   refine ⟨new_eq rows cols sb hr, ?_⟩
   rw [inv_iff]
-  refine ⟨gridInv_new W rows cols sb hr hc false, ?_, rfl, rfl, by simp [newScreen]⟩
-  exact ⟨hr, hc, Or.inl ⟨rfl, rfl⟩, by simp [newScreen], by simp [newScreen]; omega, by simp [newScreen],
+  refine ⟨gridInv_new W rows cols sb hr hc hr' hc' false, ?_, rfl, rfl, by simp [newScreen]⟩
+  exact ⟨hr, hc, hr', hc', Or.inl ⟨rfl, rfl⟩, by simp [newScreen], by simp [newScreen]; omega, by simp [newScreen],
     by simp [newScreen]; omega, by simp [newScreen], by simp [newScreen], by simp [newScreen]; omega,
     by simp [newScreen], by simp [newScreen], by simp [newScreen]⟩
 
@@ -88,7 +91,7 @@ theorem setScrollback_total (s : Screen) (k : Nat) :
 
 theorem gridInv_setScrollback {g : Grid} {un : Bool} (k : Nat) (h : GridInv W g un) :
     GridInv W { g with scrollbackOffset := min k g.scrollback.length } un :=
-  ⟨h.1, h.2, h.3, h.4, h.5, h.6, h.7, h.8, h.9, h.10, h.11, Nat.min_le_right _ _, h.13⟩
+  { h with sb_off := Nat.min_le_right _ _ }
 
 theorem inv_setScrollback (s s' : Screen) (k : Nat) (hi : Inv W s) (h : s.setScrollback k = .ok s') :
     Inv W s' := by
